@@ -50,6 +50,7 @@ type c21Config struct {
 	big       int // number of states of the large blocks 1 and 2 (0: the small fixture blocks)
 	permbatch int // LeveldbPermanent.batchlimit (0: default 333)
 	cache     int
+	wbuf      int // goleveldb write buffer of the producing handle (0: 64 KiB); images are always opened with 64 KiB
 }
 
 // c21BigBlock is a block with n ordinary states (keys shared by all big blocks, so a later one overwrites
@@ -127,6 +128,9 @@ type c21History struct {
 	marks  []crashx.Mark
 	n0     int
 	logsig string
+
+	acked0 int  // the last block whose commit was acknowledged in the setup
+	twice  bool // the recovered storage is closed, reopened and read a second time (third unit)
 }
 
 func c21Chain(env *vfEnv, cfg c21Config) []*vfBlock {
@@ -140,7 +144,7 @@ func c21Chain(env *vfEnv, cfg c21Config) []*vfBlock {
 }
 
 func c21Open(env *vfEnv, raw goleveldbstorage.Storage, cfg c21Config) *vfDB {
-	db := &vfDB{env: env, raw: raw, cachesize: cfg.cache}
+	db := &vfDB{env: env, raw: raw, cachesize: cfg.cache, wbuf: cfg.wbuf}
 	db.open()
 
 	if cfg.permbatch > 0 {
@@ -175,7 +179,7 @@ func c21Produce(env *vfEnv, cfg c21Config) *c21History {
 	vfMust(db.center.cleanRemoved(0))
 	vfSettle()
 
-	h := &c21History{cfg: cfg, chain: chain, n0: cx.Len()}
+	h := &c21History{cfg: cfg, chain: chain, n0: cx.Len(), acked0: 1}
 
 	for i := 2; i <= 3; i++ {
 		cx.MarkNow(fmt.Sprintf("begin-%d", i))
@@ -215,6 +219,10 @@ func (h *c21History) phase(n int) string {
 				return "idle"
 			case "written":
 				return "block-write"
+			case "filled": // third unit: the importers of one batch fill their block write databases
+				return "import-fill"
+			case "saved": // third unit: the importers write (flush) their block write databases
+				return "import-save"
 			case "ack":
 				return "temp-commit"
 			case "permanent":
@@ -229,7 +237,7 @@ func (h *c21History) phase(n int) string {
 }
 
 func (h *c21History) acked(n int, torn bool) int {
-	last := 1
+	last := h.acked0
 
 	for _, m := range h.marks {
 		var b int
@@ -464,6 +472,41 @@ func (h *c21History) check(env *vfEnv, im *c21Imager, d *vfDomain, expected map[
 			sig:    sig,
 			detail: fmt.Sprintf("last visible height %d; %s = %s, a chain of blocks 0..%d says %s", L, q, vfShow(g, gok), L, vfShow(w, wok)),
 		})
+	}
+
+	if !h.twice {
+		return L, vios
+	}
+
+	// a restart of the recovered node: the same answers
+	var again vfAnswers
+
+	if panicked, msg := vlib.Catch(func() {
+		db.reopen()
+
+		again = c21ReadAll(env, db, d)
+	}); panicked {
+		return L, append(vios, c21Vio{
+			sig:    map[string]any{"kind": "second-reopen-error", "phase": phase, "torn": torn},
+			detail: "closing the recovered storage, opening it again and reading failed: " + msg,
+		})
+	}
+
+	for _, q := range vfSortedKeys(got, again) {
+		g, gok := got[q]
+		a, aok := again[q]
+
+		if gok == aok && g == a {
+			continue
+		}
+
+		vios = append(vios, c21Vio{
+			sig: map[string]any{"kind": "second-reopen-differs", "phase": phase, "missing": c21Missing(q), "torn": torn},
+			detail: fmt.Sprintf("last visible height %d after the first reopen; %s = %s after the first reopen, %s after the second",
+				L, q, vfShow(g, gok), vfShow(a, aok)),
+		})
+
+		break
 	}
 
 	return L, vios
